@@ -11,7 +11,10 @@ import (
 	"fmt"
 	"math/rand"
 	"strings"
+	"sync/atomic"
 	"time"
+
+	predis "github.com/samaritan-proxy/samaritan/proc/redis"
 
 	"verifharness/internal/cli"
 	"verifharness/internal/resp"
@@ -27,6 +30,8 @@ type step struct {
 	K     string         `json:"k"`
 	Op    string         `json:"op"`
 	Exp   int            `json:"exp"`
+	P     int            `json:"p"`    // pipelined behaviours: 1 = issued while earlier commands are unanswered
+	Conn  []bool         `json:"conn"` // layout event: nodes the proxy has a backend connection to at start (LazyConnect)
 }
 
 type bad struct {
@@ -48,6 +53,8 @@ type result struct {
 	Copies         []string `json:"copies"`         // keys with != 1 copy or a wrong value at the end
 	ExecCounts     []string `json:"execCounts"`     // writes not executed exactly once
 	FirstHopWrong  []string `json:"firstHopWrong"`  // stable layout: command first delivered to a non-owner
+	Bursts         int      `json:"bursts"`         // pipelined behaviours: bursts of more than one command written in one piece
+	FreshRedirects int      `json:"freshRedirects"` // pipelined behaviours: bursts redirected to a node the proxy had no connection to
 	Err            string   `json:"err,omitempty"`
 }
 
@@ -72,7 +79,7 @@ func junk(rnd *rand.Rand, big bool) []byte {
 	return choices[rnd.Intn(len(choices))]
 }
 
-func replayOne(id int, steps []step, rnd *rand.Rand, big bool, stable bool) (res result) {
+func replayOne(id int, steps []step, rnd *rand.Rand, big bool, stable bool, pipelined bool) (res result) {
 	res = result{ID: id}
 	cl, err := simredis.NewCluster(3, 0)
 	if err != nil {
@@ -87,7 +94,18 @@ func replayOne(id int, steps []step, rnd *rand.Rand, big bool, stable bool) (res
 	for s, o := range steps[0].Owner {
 		cl.SetOwner(slotOfModel(s), o-1)
 	}
-	px, err := sut.StartRedis(sut.RedisOpts{}, cl.Addrs())
+	seeds := cl.Addrs()
+	if pipelined && len(steps[0].Conn) == len(seeds) {
+		// LazyConnect: the proxy knows (and is connected to) one seed node only; every other node is met through
+		// the routing table or a redirection, its connection is made on first use
+		seeds = nil
+		for i, on := range steps[0].Conn {
+			if on {
+				seeds = append(seeds, cl.Addrs()[i])
+			}
+		}
+	}
+	px, err := sut.StartRedis(sut.RedisOpts{}, seeds)
 	if err != nil {
 		res.Err = "start: " + err.Error()
 		return
@@ -108,13 +126,60 @@ func replayOne(id int, steps []step, rnd *rand.Rand, big bool, stable bool) (res
 	ref := simredis.NewStore()
 	modelKeys := []string{"a1", "a2", "b1"}
 	kind := map[string]string{"a1": "string", "a2": "hash", "b1": "list"}
+	// pipelined behaviours: the commands of a burst are written in one piece, the replies are read afterwards; the
+	// single server executes a pipeline in the order it was written
+	type pend struct {
+		i    int
+		args [][]byte
+		want resp.Value
+	}
+	var pending []pend
+	var burst []byte
+	var judge func(i int, args [][]byte, want resp.Value, v resp.Value, err error)
+	flush := func() {
+		if len(pending) == 0 {
+			return
+		}
+		if len(pending) > 1 {
+			res.Bursts++
+			accepted := make([]int, len(cl.Nodes))
+			for ni, n := range cl.Nodes {
+				accepted[ni] = n.AcceptCount()
+			}
+			redirBefore := atomic.LoadInt64(&cl.Redirects)
+			defer func() {
+				for ni, n := range cl.Nodes {
+					if accepted[ni] == 0 && n.AcceptCount() > 0 && atomic.LoadInt64(&cl.Redirects) > redirBefore+1 && len(simredis.DataCommands(n.Records())) > 1 {
+						res.FreshRedirects++
+					}
+				}
+			}()
+		}
+		err := c.Send(burst)
+		for _, p := range pending {
+			var v resp.Value
+			if err == nil {
+				v, err = c.Recv(8 * time.Second)
+			}
+			judge(p.i, p.args, p.want, v, err)
+		}
+		pending, burst = nil, nil
+	}
 	do := func(i int, args ...[]byte) {
+		if pipelined {
+			pending = append(pending, pend{i: i, args: args, want: ref.Exec(args)})
+			burst = append(burst, resp.Bytes(resp.CmdB(args...))...)
+			return
+		}
 		cn := c
 		if i%2 == 1 {
 			cn = c2
 		}
 		v, err := cn.DoB(8*time.Second, args...)
 		want := ref.Exec(args)
+		judge(i, args, want, v, err)
+	}
+	judge = func(i int, args [][]byte, want resp.Value, v resp.Value, err error) {
 		name := string(args[0])
 		if err != nil {
 			res.Bad = append(res.Bad, bad{Step: i, Cmd: name, Got: err.Error(), Want: want.String(), Why: "no reply"})
@@ -136,59 +201,74 @@ func replayOne(id int, steps []step, rnd *rand.Rand, big bool, stable bool) (res
 	}
 	migSlot := ""
 	for i, st := range steps[1:] {
+		if st.A != "cmd" || st.P == 0 {
+			flush() // the model issued this step with every earlier command answered
+		}
 		switch st.A {
 		case "cmd":
 			k := concreteKey(st.K)
-			val := append([]byte(fmt.Sprintf("v%d", st.Exp)), junk(rnd, big)...)
+			finalVal := append([]byte(fmt.Sprintf("v%d", st.Exp)), junk(rnd, big)...)
 			variety := rnd.Intn(3)
-			switch kind[st.K] + "/" + st.Op {
-			case "string/write":
-				switch variety {
-				case 0:
-					do(i, B("SET"), B(k), val)
-				case 1:
-					do(i, B("getset"), B(k), val)
-				default:
-					do(i, B("SETEX"), B(k), B("100"), val)
+			// pipelined behaviours: a write of the model stands for a run of writes of the same command, the last one
+			// carrying the model's value (stuttering: the abstract effect is the same, the pipeline on the wire is longer)
+			reps := 1
+			if pipelined && st.Op == "write" {
+				reps = 1 + rnd.Intn(8)
+			}
+			for rep := 0; rep < reps; rep++ {
+				val := finalVal
+				if rep < reps-1 {
+					val = append([]byte(fmt.Sprintf("s%d~", rep)), finalVal...)
 				}
-			case "string/read":
-				switch variety {
-				case 0:
-					do(i, B("GET"), B(k))
-				case 1:
-					do(i, B("strlen"), B(k))
-				default:
-					do(i, B("Exists"), B(k))
-				}
-			case "hash/write":
-				if variety == 0 {
-					do(i, B("HSET"), B(k), B("f\r\n"), val)
-				} else {
-					do(i, B("hmset"), B(k), B("f\r\n"), val, B("g"), B(""))
-				}
-			case "hash/read":
-				switch variety {
-				case 0:
-					do(i, B("HGET"), B(k), B("f\r\n"))
-				case 1:
-					do(i, B("hgetall"), B(k))
-				default:
-					do(i, B("HLEN"), B(k))
-				}
-			case "list/write":
-				if variety == 0 {
-					do(i, B("RPUSH"), B(k), val)
-				} else {
-					do(i, B("lpush"), B(k), val, B(""))
-				}
-			case "list/read":
-				switch variety {
-				case 0:
-					do(i, B("LRANGE"), B(k), B("0"), B("-1"))
-				case 1:
-					do(i, B("llen"), B(k))
-				default:
-					do(i, B("zcount"), B(k+"z"), B("0"), B("9")) // echo engine command on a neighbour key
+				switch kind[st.K] + "/" + st.Op {
+				case "string/write":
+					switch variety {
+					case 0:
+						do(i, B("SET"), B(k), val)
+					case 1:
+						do(i, B("getset"), B(k), val)
+					default:
+						do(i, B("SETEX"), B(k), B("100"), val)
+					}
+				case "string/read":
+					switch variety {
+					case 0:
+						do(i, B("GET"), B(k))
+					case 1:
+						do(i, B("strlen"), B(k))
+					default:
+						do(i, B("Exists"), B(k))
+					}
+				case "hash/write":
+					if variety == 0 {
+						do(i, B("HSET"), B(k), B("f\r\n"), val)
+					} else {
+						do(i, B("hmset"), B(k), B("f\r\n"), val, B("g"), B(""))
+					}
+				case "hash/read":
+					switch variety {
+					case 0:
+						do(i, B("HGET"), B(k), B("f\r\n"))
+					case 1:
+						do(i, B("hgetall"), B(k))
+					default:
+						do(i, B("HLEN"), B(k))
+					}
+				case "list/write":
+					if variety == 0 {
+						do(i, B("RPUSH"), B(k), val)
+					} else {
+						do(i, B("lpush"), B(k), val, B(""))
+					}
+				case "list/read":
+					switch variety {
+					case 0:
+						do(i, B("LRANGE"), B(k), B("0"), B("-1"))
+					case 1:
+						do(i, B("llen"), B(k))
+					default:
+						do(i, B("zcount"), B(k+"z"), B("0"), B("9")) // echo engine command on a neighbour key
+					}
 				}
 			}
 			if rnd.Intn(2) == 0 {
@@ -210,6 +290,7 @@ func replayOne(id int, steps []step, rnd *rand.Rand, big bool, stable bool) (res
 			migSlot = ""
 		}
 	}
+	flush()
 	res.MigratingAtEnd = migSlot != ""
 	res.Redirects = cl.Redirects
 	// convergence: a bounded number of refresh rounds after the first redirection
@@ -222,7 +303,8 @@ func replayOne(id int, steps []step, rnd *rand.Rand, big bool, stable bool) (res
 		for i, mk := range modelKeys {
 			do(1000+round*10+i, B("exists"), B(concreteKey(mk)))
 		}
-		if round >= 3 && cl.Redirects == before {
+		flush()
+		if (round >= 3 && cl.Redirects == before) || pipelined { // pipelined: the refresher is held back, nothing to wait for
 			break
 		}
 	}
@@ -268,10 +350,16 @@ func replay(args []string) error {
 	out := fs.String("out", "", "results (ndjson)")
 	stable := fs.Bool("stable", false, "the layout never changes: no redirection may happen at all")
 	big := fs.Bool("big", false, "include multi-megabyte values")
+	pipelined := fs.Bool("pipeline", false, "behaviours of ONE pipelining client (p = 1 marks a command written together with its predecessor); the refresher is held back after the table has been loaded")
 	if err := fs.Parse(args); err != nil {
 		return err
 	}
 	sut.FastRefresh()
+	if *pipelined {
+		// one refresh at start, then none (loopRefreshSlots waits slotsRefMinRate after every refresh): the table
+		// stays as loaded, as in the behaviours of ClusterGen with Pipelined = TRUE
+		predis.VerifSetSlotsRefreshTimers(time.Hour, time.Hour)
+	}
 	w, err := cli.NewNDJSONWriter(*out)
 	if err != nil {
 		return err
@@ -285,7 +373,7 @@ func replay(args []string) error {
 			return err
 		}
 		id++
-		return w.Write(replayOne(id, steps, rnd, *big, *stable))
+		return w.Write(replayOne(id, steps, rnd, *big, *stable, *pipelined))
 	})
 }
 
@@ -294,13 +382,13 @@ func replay(args []string) error {
 // another request's ASKING and its resent command on the importing node.
 
 type askRaceResult struct {
-	Attempts   int      `json:"attempts"`
-	Stolen     bool     `json:"stolen"`     // a foreign command was executed on the importing node with the stolen ASKING flag
-	CopiesA1   int      `json:"copiesA1"`   // nodes holding key a1 afterwards
-	Values     []string `json:"values"`     // value of a1 per node
-	A2Reply    string   `json:"a2Reply"`    // reply of the redirected command itself
-	Parked     bool     `json:"parked"`     // the redirect was caught between its two sends
-	Err        string   `json:"err,omitempty"`
+	Attempts int      `json:"attempts"`
+	Stolen   bool     `json:"stolen"`   // a foreign command was executed on the importing node with the stolen ASKING flag
+	CopiesA1 int      `json:"copiesA1"` // nodes holding key a1 afterwards
+	Values   []string `json:"values"`   // value of a1 per node
+	A2Reply  string   `json:"a2Reply"`  // reply of the redirected command itself
+	Parked   bool     `json:"parked"`   // the redirect was caught between its two sends
+	Err      string   `json:"err,omitempty"`
 }
 
 func init() { cli.Register("cluster-askrace", askRace) }
